@@ -19,7 +19,8 @@
 
    literal_driver src
      stdin : <tree>                prefix notation, words separated by one space:
-               n<dec>  m<dec> (negated)  x<dec> (hex spelling)  b<dec> (binary spelling)
+               n<dec>  m<dec> (negated)  x<dec> (hex spelling)  b<dec> (binary spelling)  o<dec> (octal spelling, 0o)
+               r<x|X|b|B|o|O><hex of the digits and '_' after the prefix>   (any prefixed spelling, LiteralSpec.CRad)
                f+<hex text> / f-<hex text> (float text, plain / negated)   s<hex value or ->
                A<k> followed by k trees     T<k> followed by k trees
      stdout: <hex of LiteralSpec.src tree>
@@ -172,6 +173,12 @@ let rec parse_tree = function
      | 'm' -> (CNeg (n_of_decimal arg), ws)
      | 'x' -> (CHex (n_of_decimal arg), ws)
      | 'b' -> (CBin (n_of_decimal arg), ws)
+     | 'o' -> (CRad (ROct, false, oct (n_of_decimal arg)), ws)
+     | 'r' ->
+       let (r, up) = match arg.[0] with
+         | 'x' -> (RHex, false) | 'X' -> (RHex, true) | 'b' -> (RBin, false) | 'B' -> (RBin, true)
+         | 'o' -> (ROct, false) | 'O' -> (ROct, true) | _ -> raise Bad in
+       (CRad (r, up, bytes_of_string (string_of_hex (String.sub arg 1 (String.length arg - 1)))), ws)
      | 'f' ->
        let neg = match arg.[0] with '+' -> false | '-' -> true | _ -> raise Bad in
        (CFlt (neg, bytes_of_string (string_of_hex (String.sub arg 1 (String.length arg - 1)))), ws)
